@@ -18,7 +18,7 @@ type client struct {
 	r *Run
 	w *World
 
-	getReply, set, storePendingAck, waitACKs, closeFn, getStatus, getStatusAsync, getRules *ssa.Function
+	getReply, set, waitACKs, closeFn, getStatus, getStatusAsync, getRules *ssa.Function
 	deleteRule, deleteRules, addRule, recvAudit, parseErr, parseMsg, serialize             *ssa.Function
 	nlSend, nlRecv, nlClose, newNetlink, toWire, fromWire, setPID                          *ssa.Function
 	fPending, fClearPID, fCloseOnce, fNetlink, fSeq, fPid, fReadBuf                        *types.Var
@@ -53,7 +53,7 @@ func loadClient(r *Run, w *World) *client {
 		}
 		return v
 	}
-	x.getReply, x.set, x.storePendingAck = m("AuditClient", "getReply"), m("AuditClient", "set"), m("AuditClient", "storePendingAck")
+	x.getReply, x.set = m("AuditClient", "getReply"), m("AuditClient", "set")
 	x.waitACKs, x.closeFn, x.getStatus = m("AuditClient", "WaitForPendingACKs"), m("AuditClient", "Close"), m("AuditClient", "GetStatus")
 	x.getStatusAsync, x.getRules = m("AuditClient", "GetStatusAsync"), m("AuditClient", "GetRules")
 	x.deleteRule, x.deleteRules, x.addRule = m("AuditClient", "DeleteRule"), m("AuditClient", "DeleteRules"), m("AuditClient", "AddRule")
@@ -86,7 +86,7 @@ func loadClient(r *Run, w *World) *client {
 		x.ok = false
 	}
 	if x.ok {
-		r.UseFn(fnName(x.getReply), fnName(x.set), fnName(x.storePendingAck), fnName(x.waitACKs), fnName(x.closeFn), fnName(x.getStatus),
+		r.UseFn(fnName(x.getReply), fnName(x.set), fnName(x.waitACKs), fnName(x.closeFn), fnName(x.getStatus),
 			fnName(x.getStatusAsync), fnName(x.getRules), fnName(x.deleteRule), fnName(x.deleteRules), fnName(x.addRule), fnName(x.recvAudit),
 			fnName(x.parseErr), fnName(x.parseMsg), fnName(x.serialize), fnName(x.nlSend), fnName(x.nlRecv), fnName(x.nlClose), fnName(x.newNetlink),
 			fnName(x.toWire), fnName(x.fromWire))
@@ -691,48 +691,83 @@ func propC17(r *Run, w *World) {
 		}
 	}
 	// R2
-	r.Rule("C17.R2", "recorded once, in order: storePendingAck only appends its parameter; it is called only from set(), once, on the mode == NoWait edge, with the sequence returned by that Send, and that edge reads nothing; pendingAcks has no other writer", 5)
+	r.Rule("C17.R2", "recorded once, in order: pendingAcks is written only by WaitForPendingACKs (removal, R1) and by one append of a single element in set() or in a helper extracted from set(); on the mode == NoWait edge of set() exactly one such append runs, with the sequence returned by that Send, and that edge reads nothing; every other edge records nothing", 5)
 	{
+		// argAt: a helper's parameter seen from its single call site
+		var argAt func(v ssa.Value, depth int) ssa.Value
+		argAt = func(v ssa.Value, depth int) ssa.Value {
+			par, ok := v.(*ssa.Parameter)
+			if !ok || depth > 3 || par.Parent() == x.set {
+				return v
+			}
+			sites := w.CallSitesRaw(par.Parent())
+			if len(sites) != 1 {
+				return v
+			}
+			ci, isCall := sites[0].Instr.(ssa.CallInstruction)
+			if !isCall {
+				return v
+			}
+			for i, q := range par.Parent().Params {
+				if q == par && i < len(ci.Common().Args) {
+					return argAt(ci.Common().Args[i], depth+1)
+				}
+			}
+			return v
+		}
+		recorded := map[*ssa.Store]ssa.Value{} // recording store → the element it appends, seen from set()
 		for _, a := range w.FieldAccesses(x.fPending) {
 			key := "pendingAcks " + a.Kind + " in " + fnName(a.Fn)
 			switch a.Kind {
 			case "load":
 			case "store":
-				switch a.Fn {
-				case x.storePendingAck:
+				switch {
+				case a.Fn == x.waitACKs:
+					r.OK(key, a.Instr.Pos(), "removal of consumed entries (R1)")
+				case x.w.ownedBy(a.Fn, x.set):
 					c, isApp := isAppendCall(a.Val)
 					ok := false
 					if isApp {
 						base, elems, _, _ := appendParts(c)
 						f, recv := loadedField(base)
-						ok = f == x.fPending && recv == ssa.Value(a.Fn.Params[0]) && len(elems) == 1 && elems[0] == ssa.Value(a.Fn.Params[1])
+						ok = f == x.fPending && argAt(recv, 0) == ssa.Value(x.set.Params[0]) && len(elems) == 1
+						if ok {
+							recorded[a.Instr.(*ssa.Store)] = argAt(elems[0], 0)
+						}
 					}
-					r.Check(ok, key, a.Instr.Pos(), "pendingAcks = append(pendingAcks, requestID)", "storePendingAck does not append exactly its parameter")
-				case x.waitACKs:
-					r.OK(key, a.Instr.Pos(), "removal of consumed entries (R1)")
+					r.Check(ok, key, a.Instr.Pos(), "pendingAcks = append(pendingAcks, <one sequence>)", "the recording store is not an append of exactly one element to the client's own pendingAcks")
 				default:
-					r.Fail(key, a.Instr.Pos(), "pendingAcks is written outside storePendingAck / WaitForPendingACKs")
+					r.Fail(key, a.Instr.Pos(), "pendingAcks is written outside set() (and its helpers) / WaitForPendingACKs")
 				}
 			case "valarg":
 				n := calleeName(a.Instr)
-				r.Check(n == "len" || n == "append" && a.Fn == x.storePendingAck, key+" "+n, a.Instr.Pos(), "", "pendingAcks handed to "+n)
+				r.Check(n == "len" || n == "append" && x.w.ownedBy(a.Fn, x.set), key+" "+n, a.Instr.Pos(), "", "pendingAcks handed to "+n)
 			case "reslice":
-				r.Check(a.Fn == x.waitACKs, key, a.Instr.Pos(), "", "pendingAcks resliced outside WaitForPendingACKs")
+				r.Check(x.w.ownedBy(a.Fn, x.waitACKs), key, a.Instr.Pos(), "", "pendingAcks resliced outside WaitForPendingACKs")
 			default:
 				r.Fail(key, a.Instr.Pos(), "pendingAcks is "+a.Kind+" here")
 			}
 		}
-		sites := w.CallSites(x.storePendingAck)
-		r.Check(len(sites) == 1 && sites[0].Caller == x.set && sites[0].Kind == "static", "storePendingAck call sites", x.storePendingAck.Pos(), "one, in set()", fmt.Sprintf("%d call sites", len(sites)))
+		r.Check(len(recorded) == 1, "recording stores", x.set.Pos(), "one append records pending sequences", fmt.Sprintf("%d recording appends to pendingAcks", len(recorded)))
 		var send ssa.Value
 		for _, c := range callsNamedIn(x.set, "invoke:libaudit.NetlinkSendReceiver.Send") {
 			send = c.Value()
 		}
 		if send != nil {
 			undo := alias(send, "send")
-			ps, _ := Paths(x.set, PathOpts{})
+			ps, _ := Paths(x.set, PathOpts{Splice: true})
 			for i, p := range ps {
-				st := p.Calls(x.storePendingAck)
+				// recording stores on this path (also those inside a helper spliced into the path)
+				var st []ssa.Value
+				for _, e := range p.Events {
+					if sto, ok := e.Instr.(*ssa.Store); ok && e.Kind == EvStore {
+						if el, isRec := recorded[sto]; isRec {
+							st = append(st, el)
+						} else if fa, isFA := sto.Addr.(*ssa.FieldAddr); isFA && fieldOfAddr(fa) == x.fPending {
+							st = append(st, nil)
+						}
+					}
+				}
 				reads := p.Calls(x.getReply)
 				key := fmt.Sprintf("set path#%d [%s]", i, strings.Join(p.Lits(), " ∧ "))
 				if p.HasLit("send#1 != nil") {
@@ -740,7 +775,7 @@ func propC17(r *Run, w *World) {
 					continue
 				}
 				if p.HasLit("p2 == 2") {
-					ok := len(st) == 1 && len(reads) == 0 && Term(st[0].Instr.(ssa.CallInstruction).Common().Args[1]) == "send#0"
+					ok := len(st) == 1 && len(reads) == 0 && st[0] != nil && Term(st[0]) == "send#0"
 					ev, _ := errResult(p.Return())
 					r.Check(ok && isNilConst(ev), key, x.set.Pos(), "NoWait: sequence recorded once, nothing read", "the NoWait edge does not record exactly this request's sequence, or reads: "+compactPath(p))
 				} else if p.HasLit("p2 != 2") {
@@ -778,7 +813,7 @@ func propC17(r *Run, w *World) {
 		}
 		r.Check(okDo, "Close → closeOnce.Do(func)", x.closeFn.Pos(), "", "Close does not run its body through closeOnce.Do")
 		for _, a := range w.FieldAccesses(x.fCloseOnce) {
-			ok := a.Fn == x.closeFn && a.Kind == "escape"
+			ok := x.w.ownedBy(a.Fn, x.closeFn) && a.Kind == "escape"
 			if ci, isCall := a.Instr.(ssa.CallInstruction); ok && isCall {
 				ok = calleeName(ci) == "(*sync.Once).Do"
 			}
@@ -844,7 +879,7 @@ func propC17(r *Run, w *World) {
 			}
 		}
 		for _, a := range Writes(w.FieldAccesses(x.fClearPID)) {
-			r.Check(a.Fn == x.setPID && a.Kind == "store" && isConstTrue(a.Val), "clearPIDOnClose written in "+fnName(a.Fn), a.Instr.Pos(), "SetPID stores true", "clearPIDOnClose is written outside SetPID or not to true")
+			r.Check(x.w.ownedBy(a.Fn, x.setPID) && a.Kind == "store" && isConstTrue(a.Val), "clearPIDOnClose written in "+fnName(a.Fn), a.Instr.Pos(), "SetPID stores true", "clearPIDOnClose is written outside SetPID or not to true")
 		}
 		// SetPID sets the flag on every path
 		ps, _ := Paths(x.setPID, PathOpts{})
